@@ -10,12 +10,27 @@ import qtypes  # cross-check only: the oracle is the Lean typing model (Linq/Typ
 from cprop import CompilerProp
 
 ID = "C03"
-LEAN_MODULES = ["FaxVerif.C03.Theorems", "FaxVerif.C03.TheoremsTyping"]
+LEAN_MODULES = ["FaxVerif.C03.Theorems", "FaxVerif.C03.TheoremsTyping", "FaxVerif.C03.TheoremsGen"]
 LEAN_SOURCES = ["FaxVerif/C03", "FaxVerif/Gen", "FaxVerif/Cpp", "FaxVerif/Linq"]
 DRIVER = cgroup.DRIVER
 TYPING_DRIVER = "FaxVerif/C03/TypingDriver.lean"
 SETUP_MODULES = cgroup.DRIVER_IMPORTS + ["FaxVerif.Linq.Typing"]  # what the two drivers import
 THEOREMS = [
+    "FaxVerif.C03.schema_ok_compile",
+    "FaxVerif.C03.schema_ok_compileL",
+    "FaxVerif.C03.schema_ok_compileN",
+    "FaxVerif.C03.nested_column_pushed",
+    "FaxVerif.C03.types_agree_with_typing",
+    "FaxVerif.C03.types_agree_with_typing_counterexample",
+    "FaxVerif.C03.types_agree_with_typingL",
+    "FaxVerif.C03.types_agree_with_typingL_counterexample",
+    "FaxVerif.C03.types_agree_with_typingN",
+    "FaxVerif.C03.column_values_fit",
+    "FaxVerif.C03.column_values_fitL",
+    "FaxVerif.C03.column_values_fitN",
+    "FaxVerif.C03.schema_ok_against_typing",
+    "FaxVerif.C03.schema_ok_against_typingL",
+    "FaxVerif.C03.schema_ok_against_typingN",
     "FaxVerif.C03.schema_names",
     "FaxVerif.C03.schema_own_storage",
     "FaxVerif.C03.schema_width",
@@ -70,7 +85,13 @@ LEVEL_TEXT = (
     "division_is_floating, conditional_is_floating, comparison_is_bool, final_names_order / _dict / _tuple, final_names_distinct_partial, width, "
     "label_mismatch_refused, column_shapes. That model is the oracle: the decidable schema predicate SchemaOk (Lean) is evaluated on the "
     "implementation's own parsed output for every generated query and all terminal forms against the names and C++ types the model computes; "
-    "the returned descriptor and the count-mismatch refusal (decided by finalColumnsLabeled) are checked on the real pipeline."
+    "the returned descriptor and the count-mismatch refusal (decided by finalColumnsLabeled) are checked on the real pipeline. For the "
+    "translator MODELS (Gen.compile, compileL with lazy operators, compileN with nested loops — each tied to the real translator's text "
+    "on every run) the whole predicate is a theorem for every query of the fragment: schema_ok_compile / _compileL / _compileN (all "
+    "eight conjuncts: names in order, own storage, declared once with the type, written by the body, nothing else written, a fill on the "
+    "booked tree), the column types the model declares are the types the independent typing model assigns to the user-level query "
+    "(types_agree_with_typing / L / N, with the two exclusions proved necessary by counterexamples: columns of bare objects, and/or on "
+    "non-boolean operands), hence every value the query can evaluate to fits the C++ type booked for its column (column_values_fit / L / N)."
 )
 LEVEL_NOTE = (
     "Proved on the translator model (tied by C01's text tie): names, distinct storage, width, tree name, element-level scalar types. Proved on the "
